@@ -39,10 +39,13 @@ structure SVal where
   org : Option Org := none
   deriving Inhabited
 
+/-- What the host fixes for a run: the limits of a core and the singleton values it provides
+(`Executor.LoadSingleton`; a name that is not listed is answered "not found"). -/
 structure Limits where
   callStack : Nat := 100
   stack : Nat := 500
   memory : Nat := 10000
+  hostSingletons : HostSingletons := []
   deriving Repr, Inhabited
 
 structure VMState where
@@ -268,7 +271,17 @@ def step (code : Code) (lim : Limits) (s : VMState) (i : RInstr) (sp : Span) : S
     | _ => .panic "call operands" s
   | .ret =>
     .next { s with calls := s.calls.tail }
-  | .loadSingleton _ _ => .next (advance s)     -- the testing host provides no singleton values
+  | .loadSingleton name _ =>
+    -- `found`: the default the compiler pushed is popped and the host's value is used instead
+    match lim.hostSingletons.lookup name with
+    | none => .next (advance s)
+    | some hv =>
+      match pop1 s with
+      | some (_, s') =>
+        match runM s' (hostToVal hv) with
+        | (.ok v, s'') => .next (advance (push1 s'' v))
+        | (.error c, s'') => ctlToRes c s''
+      | none => .panic "stack underflow" s
   | .hostCall name =>
     match s.stack with
     | ⟨.int argc, _⟩ :: rest =>
